@@ -20,13 +20,23 @@ def generate():
         body = crate_to_reg(body)
         subs = []
         if f == "register.rs":
-            # the two numeric limits become symbolic: entry size and entry count (8 checked substitution sites)
-            subs = [("let reg_size = self.ops.len();", "let reg_size = crate::shim::sym_count(self.ops.len());", 2),
-                    ("let size = op.crdt_op.value.len();", "let size = crate::shim::sym_size(&op.crdt_op.value);", 2),
-                    ("Error::TooManyEntries(reg_size)", "Error::TooManyEntries(reg_size.into())", 2),
-                    ("                    size,\n                    max: MAX_REG_ENTRY_SIZE,", "                    size: size.into(),\n                    max: MAX_REG_ENTRY_SIZE,", 1),
-                    ("                size,\n                max: MAX_REG_ENTRY_SIZE,", "                size: size.into(),\n                max: MAX_REG_ENTRY_SIZE,", 1)]
-            body = apply_subs(body, subs, rel)
+            # the two numeric limits become symbolic: entry count and entry size.  Pattern-level (not site-level)
+            # substitutions, so that renamed locals and extracted helpers keep the encoding alive; each pattern must
+            # occur at least once, otherwise the encoding cannot be regenerated (exit 2)
+            rules = [(r"self\.ops\.len\(\)", "crate::shim::sym_count(self.ops.len())", 1),
+                     (r"(\b\w+)\.crdt_op\.value\.len\(\)", r"crate::shim::sym_size(&\1.crdt_op.value)", 1),
+                     (r"Error::TooManyEntries\(([^()]+)\)", r"Error::TooManyEntries((\1).into())", 1),
+                     (r"EntryTooBig\s*\{(\s*)size,", r"EntryTooBig {\1size: size.into(),", 0),
+                     (r"EntryTooBig\s*\{(\s*)size:\s*(?![^,]*\.into\(\))([^,]+),", r"EntryTooBig {\1size: (\2).into(),", 0)]
+            n_subs = 0
+            for pat, repl, need in rules:
+                body, n = re.subn(pat, repl, body)
+                if n < need:
+                    raise EncodingError(f"{rel}: pattern not found: {pat}")
+                n_subs += n
+            if "size: size.into()" not in body and ".into()," not in body:
+                raise EncodingError(f"{rel}: no EntryTooBig construction found")
+            subs = [None] * n_subs
             body += '\n#[path = "../../h_register.rs"]\npub mod harness;\n'
         if f == "lib.rs":
             body = body.replace("#[macro_use]\nextern crate tracing;", "")
